@@ -215,10 +215,10 @@ def w_lists(n: int, k0: int, k1: int, k2: int, mode: int) -> str:
 def w_lists4(k0: int, k1: int, k2: int, k3: int, mode: int) -> str:
     """
     pre: PARTITION is None or k0 == PARTITION
-    pre: 0 <= k0 < 11 and 0 <= k1 < 11 and 0 <= k2 < 11 and 0 <= k3 < 11 and 0 <= mode < 6
+    pre: 0 <= k0 < 11 and 0 <= k1 < 11 and 0 <= k2 < 11 and 0 <= k3 < 6 and 0 <= mode < 6
     post: _ == ''
     """
-    return _case(4, rt.sel(k0, 11), rt.sel(k1, 11), rt.sel(k2, 11), rt.sel(k3, 11), rt.sel(mode, 6))
+    return _case(4, rt.sel(k0, 11), rt.sel(k1, 11), rt.sel(k2, 11), rt.of([0, 2, 4, 6, 9, 10], k3), rt.sel(mode, 6))
 
 
 def obligations(tier):
@@ -231,5 +231,5 @@ def obligations(tier):
     ]
     if tier == 'thorough':
         obs.append(CH('W_argument_lists_of_4', MOD, 'w_lists4', timeout=7000, partitions=list(range(11)), twin=False, engine='W',
-                      regime='selector', encodes=K.PUT_FUNCS, stubs=K.STUBS, bounds='lists of 4 arguments x 11 kinds per position x 6 option sets'))
+                      regime='selector', encodes=K.PUT_FUNCS, stubs=K.STUBS, bounds='lists of 4 arguments: 11 kinds for the first three positions, 6 for the fourth, x 6 option sets'))
     return obs
